@@ -11,5 +11,6 @@ def one(c):
     kf = sum(1 for l in p.stdout.splitlines() if l.startswith("KNOWN-FINDING"))
     return c["property_id"], p.returncode, round(time.time() - t0, 1), kf, (last[-1] if last else p.stdout[-300:])
 with cf.ThreadPoolExecutor(max_workers=int(sys.argv[2]) if len(sys.argv) > 2 else 4) as ex:
-    for pid, rc, dt, kf, last in ex.map(one, m["checks"]):
+    for fut in cf.as_completed([ex.submit(one, c) for c in m["checks"]]):
+        pid, rc, dt, kf, last = fut.result()
         print("%s rc=%d %6.1fs known=%d %s" % (pid, rc, dt, kf, last[:150]), flush=True)
